@@ -40,6 +40,8 @@ type concRun struct {
 
 	markChecks    atomic.Int64
 	markViolation string
+	misuseN       atomic.Int64
+	misuse        string
 }
 
 func (cr *concRun) newValue(r *rand.Rand) (int32, []byte) {
@@ -219,6 +221,46 @@ func (cr *concRun) oneTxn(g int, r *rand.Rand, shape string) {
 	cr.mu.Lock()
 	cr.txns = append(cr.txns, rec)
 	cr.mu.Unlock()
+	if r.Intn(8) == 0 {
+		cr.misuseCalls(tx, update, r)
+	}
+}
+
+// misuseCalls: calls on a finished transaction and with an empty key, while the other clients go on
+// (C08: answered with the documented error, no effect - the recorded history shows any effect).
+func (cr *concRun) misuseCalls(tx *originium.Txn, update bool, r *rand.Rand) {
+	bad := func(f string, a ...any) {
+		cr.mu.Lock()
+		if cr.misuse == "" {
+			cr.misuse = fmt.Sprintf(f, a...)
+		}
+		cr.mu.Unlock()
+	}
+	k := cr.keys[r.Intn(len(cr.keys))]
+	for _, x := range r.Perm(4)[:1+r.Intn(4)] {
+		cr.misuseN.Add(1)
+		switch x {
+		case 0:
+			if v, ok := tx.Get(k); ok {
+				bad("Get(%q) on a finished transaction returned %q, want not-found", k, v)
+			}
+		case 1:
+			err := tx.Set(k, []byte("written-through-a-finished-transaction"))
+			if !errors.Is(err, originium.ErrDiscardedTxn) && !(!update && errors.Is(err, originium.ErrReadOnlyTxn)) {
+				bad("Set on a finished transaction (update=%v) returned %v", update, err)
+			}
+		case 2:
+			if err := tx.Commit(); !errors.Is(err, originium.ErrDiscardedTxn) {
+				bad("Commit on a finished transaction returned %v, want ErrDiscardedTxn", err)
+			}
+		case 3:
+			t2 := cr.db.Begin(false)
+			if v, ok := t2.Get(""); ok {
+				bad("Get(\"\") returned %q, want not-found", v)
+			}
+			t2.Discard()
+		}
+	}
 }
 
 // closureTxn runs a whole transaction through DB.View / DB.Update (Begin and Commit happen inside).
@@ -288,9 +330,12 @@ type concOutcome struct {
 	panicked    string
 	overlapping int
 	crowd       bool // >40 concurrent clients: judged by the definite rules only
+	sibling     bool // a second database was busy in the same process
 
 	markViolation string
 	markChecks    int64
+	misuse        string
+	misuseCalls   int64
 }
 
 // runConcWorkload executes the workload and returns the recorded history.
@@ -338,12 +383,62 @@ func runConcWorkload(c core.Case, res *core.Result) *concOutcome {
 	defer func() { eng.H.OnCompaction = nil }()
 	before := eng.H.Snapshot()
 	cr := &concRun{valID: map[string]int32{}, keys: keys}
+	if c.Int("deflog", 0) == 1 {
+		// the engine's own default logger instead of the harness's silent one
+		defer eng.DefaultLogger()()
+	}
 	if p := eng.Safely(func() { cr.db = eng.Open(dir, cfg) }); p != "" {
 		out.panicked = "Open: " + p
 		return out
 	}
 	var wg sync.WaitGroup
 	var pmu sync.Mutex
+	if c.Int("sibling", 0) == 1 {
+		// a second, unrelated database in the same process, busy while the recorded clients run:
+		// whatever the handles share behind the scenes is exercised (judged by the race detector
+		// and by the recorded history of the first database staying legal)
+		sdir := dir + "-sibling"
+		os.RemoveAll(sdir)
+		defer os.RemoveAll(sdir)
+		var sdb *originium.DB
+		if p := eng.Safely(func() { sdb = eng.Open(sdir, cfg) }); p != "" {
+			out.panicked = "Open of the sibling database: " + p
+			return out
+		}
+		stop := make(chan struct{})
+		var swg sync.WaitGroup
+		for g := 0; g < 2; g++ {
+			swg.Add(1)
+			go func(g int) {
+				defer swg.Done()
+				if p := eng.Safely(func() {
+					for i := 0; ; i++ {
+						select {
+						case <-stop:
+							return
+						default:
+						}
+						_ = sdb.Update(func(tx *originium.Txn) error {
+							_, _ = tx.Get(fmt.Sprintf("s%d", (i+1)%7))
+							return tx.Set(fmt.Sprintf("s%d", i%7), []byte(fmt.Sprintf("sib-%d-%d", g, i)))
+						})
+					}
+				}); p != "" {
+					pmu.Lock()
+					out.panicked = "sibling database: " + p
+					pmu.Unlock()
+				}
+			}(g)
+		}
+		defer func() {
+			close(stop)
+			swg.Wait()
+			if p := eng.Safely(func() { sdb.Close() }); p != "" && out.panicked == "" {
+				out.panicked = "Close of the sibling database: " + p
+			}
+		}()
+		out.sibling = true
+	}
 	for g := 0; g < G; g++ {
 		wg.Add(1)
 		go func(g int) {
@@ -375,6 +470,7 @@ func runConcWorkload(c core.Case, res *core.Result) *concOutcome {
 		}
 	}
 	out.markViolation = cr.markViolation
+	out.misuse, out.misuseCalls = cr.misuse, cr.misuseN.Load()
 	out.markChecks = cr.markChecks.Load()
 	out.txns = cr.txns
 	sort.Slice(out.txns, func(i, j int) bool { return out.txns[i].BeginCall < out.txns[j].BeginCall })
@@ -412,6 +508,10 @@ func judgeConc(out *concOutcome, res *core.Result, owner string) {
 		res.Violate("C05", "C05/conc/read-watermark-above-open-snapshot", "%s\nconfig: %s keys %q", out.markViolation, gen.CfgString(out.cfg), out.keys)
 	}
 	res.AddObs("read_watermark_invariant_checks", out.markChecks)
+	if out.misuse != "" {
+		res.Violate("C08", "C08/conc/misuse", "%s\nconfig: %s keys %q", out.misuse, gen.CfgString(out.cfg), out.keys)
+	}
+	res.AddObs("misuse_calls_during_concurrent_work", out.misuseCalls)
 	idx := map[int]*hTxn{}
 	for _, t := range out.txns {
 		idx[t.ID] = t
@@ -492,6 +592,12 @@ func runConc(c core.Case, owner string) core.Result {
 		if !strings.HasPrefix(k, "pt.") {
 			res.AddObs(k, v)
 		}
+	}
+	if out.sibling {
+		res.AddObs("histories_with_a_second_database_in_the_process", 1)
+	}
+	if c.Int("deflog", 0) == 1 {
+		res.AddObs("histories_with_the_default_logger", 1)
 	}
 	res.AddObs("transactions", int64(len(out.txns)))
 	res.AddObs("committed_writers", committedW)
